@@ -6,11 +6,12 @@ import vlib
 class P(vlib.Prop):
     pid = "C17"
     coq_dirs = ["Common", "C17", "Generated"]
-    coq_targets = ["C17/Properties.vo", "C17/Witness.vo", "C17/Harness.vo"]
+    coq_targets = ["C17/Properties.vo", "C17/Witness.vo", "C17/Harness.vo", "C17/Clauses.vo"]
     properties_module = "C17.Properties"
     properties_file = "C17/Properties.v"
     instance_obligations = []
-    harness_module = "C17.Harness"
+    harness_module = "C17.Clauses"     # re-exports C17.Harness; check_both = check_case && prop_ok
+    check_fn = "check_both"
     case_type = "vcase"
     shard = 60
     harnesses = [
@@ -42,6 +43,7 @@ class P(vlib.Prop):
         "translator T1 (tools/go2coq) for metricDPC, MetricType constants, itemCount, hasTimer, single-shard cardinality (coq/Generated/C17Batch.v)",
         "hand-written model coq/C17/Model.v of batch_processor.go, split{logs,traces,metrics}.go, Config.Validate, client.Metadata, tied to the code by the correspondence run on every check",
         "abstraction: Resource / Scope / item = opaque identity carried by an attribute; nil and empty value lists identified; attribute.Set equality = equality of the per-key value lists",
+        "decidable clause checker coq/C17/Clauses.v over the observed behaviour (sound and complete: ProofsC.v); boolean multiset equality perm_b",
         "Go harness harness/C17/*.go + go test -overlay; Go toolchain; the harness fires a shard's time.Timer by Reset(1ns) when the shard is quiescent (logical time)",
     ]
     assumptions = [
@@ -55,3 +57,50 @@ class P(vlib.Prop):
 
     def translate(self, ctx):
         vlib.go2coq(ctx, "processor/batchprocessor", os.path.join(vlib.VERIF, "props", "C17", "t1_spec.json"), "C17Batch")
+
+    CLAUSES = {1: "clause-conservation", 2: "clause-max-size", 3: "clause-cardinality", 4: "clause-split"}
+
+    def extra_checks(self, ctx):
+        """(1) every case is evaluated with check_both = agreement with the model AND the decidable clause checker
+        (Clauses.prop_ok, sound by clause_checker_*_sound) on the OBSERVED behaviour - an oracle that does not use
+        the model's step functions.  The failing cases are classified here: one that violates a clause is reported
+        as a failing input of that clause; one that only disagrees with the model stays a disagreement.
+        (2) when a translator obligation broke: the arguments on which generated and hand-written definition differ
+        (T1Diff.dpc_diff) steer a second harness run towards histories that use them."""
+        import copy
+        import re
+        ms = ctx.mismatches[:12]
+        if ms:
+            expr = "[" + "; ".join("prop_viol %s" % m["term"] for m in ms) + "]"
+            out = vlib.coq_eval_term(ctx, "C17.Clauses", expr)
+            body = out.split("=", 1)[1] if "=" in out else out
+            codes = [int(x) for x in re.findall(r"\d+", body.split(":")[0])]
+            ctx.extra_coverage["clause_checker"] = {"classified": len(ms), "codes": codes}
+            seen = set()
+            for m, code in zip(ms, codes):
+                kind = self.CLAUSES.get(code)
+                if not kind or kind in seen:
+                    continue
+                seen.add(kind)
+                ctx.oracle.append({"kind": kind, "term": m["term"], "harness": m["harness"],
+                                   "detail": "the observed behaviour of the implementation on this case violates the clause "
+                                             "(decidable checker Clauses.prop_viol, sound by clause_checker_*_sound)"})
+        else:
+            ctx.extra_coverage["clause_checker"] = {"classified": 0, "all_cases_satisfy_clauses": len(ctx.cases)}
+        if any("Translated.v" in w or "Translated.v" in d for w, d in ctx.broken):
+            try:
+                vlib.coq_make(ctx, ["C17/T1Diff.vo"])
+            except vlib.Broken:
+                ctx.notes.append("translator obligation broken and the generated function no longer has the expected shape: no argument enumeration possible")
+                return
+            out = vlib.coq_eval_term(ctx, "C17.T1Diff", "dpc_diff")
+            ks = [int(x) for x in re.findall(r"(\d+)%Z", out)] or [int(x) for x in re.findall(r"\b(\d+)\b", out.split(":")[0].split("=")[-1])]
+            ctx.notes.append("translator obligation broken; metricDPC differs from the model on metric types %s" % ks)
+            for k in ks[:2]:
+                h = copy.copy(self.harnesses[0])
+                h.name = "batch_focus%d" % k
+                h.extra_env = dict(h.extra_env, VERIF_C17_FOCUS_KIND=str(k))
+                cases, oracle, stats, err = vlib.run_harness(ctx, h)
+                for f in oracle:
+                    f["detail"] = "[history built around metric type %d, on which metricDPC and the model differ] %s" % (k, f["detail"])
+                ctx.oracle += oracle
